@@ -186,7 +186,7 @@ theorem exDoc_inside : ∀ t, parseDoc (exCfg true 100) exDoc = .ok t → allN (
   have : (parseDoc (exCfg true 100) exDoc).toOption.map (allN (rendered (insideB exDoc))) = some true := by
     decide +kernel
   rw [ht] at this
-  simpa using this
+  simpa [Except.toOption] using this
 
 example (x : Bool) : renderDoc x (exCfg true 100) (lfToCr exDoc) = renderDoc x (exCfg true 100) exDoc :=
   doc_cr_invariant_sp x _ _ rfl exDoc_hyps.1
@@ -194,7 +194,7 @@ example (x : Bool) : renderDoc x (exCfg true 100) (lfToCr exDoc) = renderDoc x (
 example (x : Bool) : renderDoc x (exCfg true 100) (exDoc ++ ['\n']) = renderDoc x (exCfg true 100) exDoc :=
   doc_final_newline_invariant_sp x _ _ rfl exDoc_hyps.2.1 exDoc_inside
 
-/-- the output in question carries positions (5 attributes on 55 + … characters) -/
-example : (renderDoc false (exCfg true 100) exDoc).toOption.map List.length = some 190 := by decide +kernel
+/-- the output in question carries positions (3 attributes: 130 characters instead of 55) -/
+example : (renderDoc false (exCfg true 100) exDoc).toOption.map List.length = some 130 := by decide +kernel
 
 end MdIt.Pipeline
